@@ -67,13 +67,17 @@ contract(AM, props=['C03'], assumed=True, reason='ISA model construction (YAML l
          params={'config_file_path': 'str', 'is_verbose': 'int'}, may_raise={'SystemExit': 'True'}, modifies=[],
          no_frame_check=True)
 
-contract('bespokeasm.assembler.engine:Assembler.__init__', props=['C03'],
+contract('bespokeasm.assembler.engine:Assembler.__init__', props=['C03', 'C17', 'C09', 'C15'],
          params={'binary_end': 'int?', 'include_paths': 'list[str]', 'predefined': 'list[str]'},
          may_raise={'SystemExit': 'True'},
          ensures=['self._binary_start == binary_start', 'self._binary_end == binary_end',
                   # the fill value is a byte
                   'self._binary_fill_value == binary_fill_value % 256',
-                  'self._generate_binary == generate_binary', 'self._output_file == output_file'],
+                  'self._generate_binary == generate_binary', 'self._output_file == output_file',
+                  # the search directories, the -D symbols and the file names are the ones given (C17: where includes are
+                  # looked up; C09: which symbols are predefined; C15: nothing of the environment is mixed in)
+                  'self._include_paths is include_paths', 'self._predefined_symbols is predefined',
+                  'self._source_file == source_file', 'self._config_file == config_file'],
          modifies=['self._source_file', 'self._output_file', 'self._config_file', 'self._generate_binary',
                    'self._enable_pretty_print', 'self._pretty_print_format', 'self._pretty_print_output',
                    'self._binary_fill_value', 'self._verbose', 'self._binary_start', 'self._binary_end', 'self._model',
